@@ -688,7 +688,7 @@ class LangServer:
                 tmp_list = []
                 if name_replace is None:
                     name_replace = candidate.name
-                for member in candidate.mems:
+                for member in getattr(candidate, "mems", []):
                     tmp_text, _ = member.get_snippet(name_replace)
                     if tmp_list.count(tmp_text) > 0:
                         continue
@@ -1131,7 +1131,7 @@ class LangServer:
                 )
             )
         elif var_type == INTERFACE_TYPE_ID:
-            for member in var_obj.mems:
+            for member in getattr(var_obj, "mems", []):
                 hover_str, docs = member.get_hover(long=True)
                 if hover_str is not None:
                     hover_array.append(create_hover(hover_str, docs))
